@@ -65,7 +65,7 @@ def corrupt(rng, st):
     gs = [g for g in s["groups"]]
     g = rng.choice(gs)
     finals = [e for e in g["entries"] if e["kind"] == "final"]
-    k = rng.randrange(24)
+    k = rng.randrange(26)
     if k == 0 and finals:
         rng.choice(finals)["has_data"] = False
         return "data file deleted", s
@@ -151,6 +151,12 @@ def corrupt(rng, st):
         # then the stream breaks
         rng.choice(finals)["tail_garbage"] = True
         return "garbage after the manifest's last frame", s
+    if k in (24, 25) and finals:
+        # a complete copy of a backup under its name plus a suffix (a renamed / copied directory): an unexpected entry, however valid inside
+        b = rng.choice(finals)
+        g["extra"].append({"name": bname(b["day"], b["time"]) + rng.choice([".old", "~", " (copy)", "-broken", ".1"]), "dir": True, "kind": "junk",
+                           "copy_of": b})
+        return "suffixed copy of a backup", s
     return "none", s
 
 
@@ -175,7 +181,12 @@ def real_spec(st):
                 b["meta_append_hex"] = (b"\x00\x01garbage after the frame" * 8).hex()
             bs.append(b)
         for x in g["extra"]:
-            junk.append({"name": x["name"], "dir": x["dir"]})
+            if x.get("copy_of"):
+                e = x["copy_of"]
+                bs.append({"name": x["name"], "manifest": [{"unique": bool(u), "hash": hhex(h), "fp": [1, 2, 3], "size": sz, "path_hex": b"/p/f".hex()} for (u, h, sz) in e["manifest"]],
+                           "entries": []})
+            else:
+                junk.append({"name": x["name"], "dir": x["dir"]})
         groups.append({"name": gname(g["day"]), "backups": bs, "junk": junk})
     return {"groups": groups, "junk": [{"name": x["name"], "dir": x["dir"]} for x in st["root_extra"]]}
 
